@@ -216,7 +216,8 @@ def storage_removal(chk, n):
 def run(chk):
     n = 60 if chk.tier == 'quick' else 600
     return rc.run_property(chk, 'C05', ORACLES, restore=RESTORE, nq=220, extra_corpus=sharing_histories(chk.seed, n),
-                           before_finish=lambda: storage_removal(chk, 36 if chk.tier == 'quick' else 360))
+                           before_finish=lambda: storage_removal(chk, 36 if chk.tier == 'quick' else 360),
+                           fault_stream=18 if chk.tier == 'quick' else 200)
 
 
 def replay(chk, data):
